@@ -20,7 +20,7 @@ RULE = ('hostile scripts: in each victim state (contact header not yet sent by t
         '(role, script).')
 COMPONENTS = tc.COMPONENTS
 PROBES = ('hostile.pre-session', 'hostile.unknown-id', 'hostile.no-transfer', 'hostile.unknown-type', 'hostile.bad-contact',
-          'hostile.other', 'probe.victim_transfer_completed', 'probe.followup_processed', 'probe.queued_before_session', 'probe.final_ack_while_in_progress', 'probe.final_ack_while_queued')
+          'hostile.other', 'probe.victim_transfer_completed', 'probe.followup_processed', 'probe.queued_before_session', 'probe.final_ack_while_in_progress', 'probe.final_ack_while_queued', 'probe.refuse_own_queued')
 ASSUMPTIONS = ['the reject/terminate/close clause is demanded only for the message classes the statement lists; for other hostile '
                'input only: no escaped exception, no mixed data, own transfers unharmed']
 CHUNK = 20
@@ -74,7 +74,15 @@ def gen(ch, tier):
             elif kind == 1:
                 script.append(dict(step='victim_send', len=ch.choice('vlen', (1, 40, 300, 3000)), tag=tag))
                 tag += 1
-                if ch.coin('own-ack', 1, 3):
+                if ch.coin('own-refuse', 1, 5):
+                    # a refusal naming a transfer the peer cannot know yet (queued behind the one in progress, or not started),
+                    # optionally followed by the peer ending the session
+                    script[-1]['no_settle'] = ch.coin('own-refuse.now', 1, 2)
+                    glued = ch.coin('own-refuse.glued', 1, 2)
+                    script.append(dict(step='hostile', state='established', msg=dict(cls='other', what='refuse-own-queued', with_term=glued)))
+                    if not glued and ch.coin('own-refuse.term', 1, 2):
+                        script.append(dict(step='peer_term'))
+                elif ch.coin('own-ack', 1, 3):
                     if ch.coin('own-ack.now', 1, 2):
                         # the acknowledgement arrives before the agent's idle callback has started the transfer: queued, not started
                         script[-1]['no_settle'] = True
@@ -169,7 +177,16 @@ def _responded(har, before):
 
 def _do_hostile(run, har, msg, state):
     before = len(har.vmsgs)
-    if msg['what'] == 'ack-own-end':
+    if msg['what'] == 'refuse-own-queued':
+        tid = int(har.queued[-1][1]) if har.queued else 1
+        run.stats['probe.refuse_own_queued'] = 1
+        state.setdefault('refused', set()).add(str(tid))
+        data = rfc9174.encode(dict(kind='XFER_REFUSE', reason=2, transfer_id=tid))
+        if msg.get('with_term'):
+            # ... and the peer's SESS_TERM in the same read, before the victim's idle callbacks have run
+            data += rfc9174.encode(dict(kind='SESS_TERM', flags=0, reason=0))
+            state['peer_term'] = True
+    elif msg['what'] == 'ack-own-end':
         # a final acknowledgement for the victim's most recent transfer, whatever state that is in (queued, in progress, already acknowledged)
         (tid, size) = (int(har.queued[-1][1]), len(har.queued[-1][2])) if har.queued else (1, 5)
         hdl = har.victim_state()
@@ -222,6 +239,11 @@ def _drive(run, plan, har):
                 har.settle()
                 if step.get('early'):
                     run.stats['probe.queued_before_session'] = 1
+        elif kind == 'peer_term':
+            # the peer ends the session in the regular way; the victim must answer and survive (no escaped exception)
+            har.deliver(rfc9174.encode(dict(kind='SESS_TERM', flags=0, reason=0)))
+            har.settle_all()
+            state['peer_term'] = True
         elif kind == 'honest_xfer':
             body = body_for(step['tag'], sum(step['sizes']))
             peer_bodies[str(step['tid'])] = body
@@ -269,6 +291,7 @@ def _drive(run, plan, har):
         # a refusal that is itself out of place (before the session exists) is rejected, not acted on
         refused = set(str(step['msg'].get('tid')) for step in plan['script']
                       if step.get('msg') and step['msg']['what'].startswith('refuse') and step.get('state') != 'contact-done')
+        refused |= state.get('refused', set())
         for (_seq, tid, body) in har.queued:
             if tid not in done and tid not in refused:
                 run.viols.append(('own-transfer', 'not-completed-' + _cause(run), 'victim transfer %s (%d octets) did not complete although the session stayed up' % (tid, len(body))))
